@@ -433,7 +433,7 @@ def tile_templates(crate, root):
                             st_ok = _param_is_step_item(crate, an, c, n)
                         out.append(("start", st_ok, ev["span"], "range start is neither k * chunk nor an item of (0..n).step_by(chunk)"))
             # template 3: rows.chunks(c)
-            if ev["key"] == "slice::chunks" and len(ev["args"]) == 2:
+            if ev["key"] in ("slice::chunks", "slice::chunks_mut") and len(ev["args"]) == 2:
                 dc = _chunk_def(crate, an, ev["args"][1])
                 out.append(("chunks-div-ceil", dc is not None, ev["span"], "chunks() size is not div_ceil(n, t)"))
     return out
